@@ -1,14 +1,361 @@
-//! C15 harness (stub).
+//! C15: the nodegraph is an exact multi-table Bloom filter without false negatives.
+//!
+//! A case owns three filters 0,1,2.
+//!   case <n> new <k> <sizes>            all three: Nodegraph::new(sizes, k)          -> sizes
+//!   case <n> wt <tablesize> <nt> <k>    all three: Nodegraph::with_tables            -> sizes
+//!   case <n> mixed <k> <sa> <sb>        0,1: new(sa), 2: new(sb) (outside the property; model only)
+//!   count <i> <h>        -> <0|1> occ=<noccupied> uniq=<unique_kmers>
+//!   kmer <i> <ACGT…>     nodegraph_count_kmer (C API)                      -> same
+//!   get <i> <h> / getk <i> <kmer>   (nodegraph_get / nodegraph_get_kmer)   -> 0|1
+//!   upd <dst> <src>      src.update(&mut dst) (every third through nodegraph_update) -> ok occ= uniq=
+//!   updmh|updbt <i> <hashes>   KmerMinHash / KmerMinHashBTree .update(&mut ng)       -> ok occ= uniq=
+//!   matches <i> <hashes> -> count
+//!   sim|cont <a> <b>     -> f64 bits | nan
+use sourmash::encodings::HashFunctions;
+use sourmash::ffi::minhash::SourmashKmerMinHash;
+use sourmash::ffi::nodegraph::{
+    nodegraph_count, nodegraph_count_kmer, nodegraph_get, nodegraph_get_kmer, nodegraph_matches,
+    nodegraph_noccupied, nodegraph_update, nodegraph_update_mh, SourmashNodegraph,
+};
+use sourmash::prelude::*;
+use sourmash::signature::SigsTrait;
+use sourmash::sketch::minhash::{KmerMinHash, KmerMinHashBTree};
+use sourmash::sketch::nodegraph::Nodegraph;
+use std::ffi::CString;
 use verif_harness::*;
 
-fn gen(_a: &Args) {
-    let mut o = Out::new();
-    o.case("stub");
+const PRIMES: [u64; 20] = [2, 3, 5, 7, 11, 13, 17, 19, 23, 29, 31, 37, 61, 67, 127, 131, 251, 257, 293, 299];
+
+fn pick_size(r: &mut Rng) -> u64 {
+    match r.below(6) {
+        0 => r.range(1, 8),
+        1 => *r.pick(&[31u64, 32, 33, 63, 64, 65, 95, 96, 97, 128, 255, 256, 300]),
+        2 => *r.pick(&PRIMES),
+        _ => r.range(1, 300),
+    }
 }
 
-fn step(_: &mut (), ws: &[&str]) -> String {
+fn sizes_vec(r: &mut Rng) -> Vec<u64> {
+    let n = match r.below(20) {
+        0..=3 => 1,
+        4..=13 => r.range(2, 6),
+        14..=17 => r.range(7, 40),
+        18 => r.range(41, 255),
+        _ => 255,
+    };
+    (0..n).map(|_| pick_size(r)).collect()
+}
+
+fn pool(r: &mut Rng, sizes: &[u64]) -> Vec<u64> {
+    let mut p = vec![0u64, 1, u64::MAX, u64::MAX - 1, 1 << 63, (1 << 63) - 1, 1 << 32, (1 << 32) - 1];
+    for s in sizes.iter().take(6) {
+        let m = r.bits(56);
+        p.push(s.wrapping_mul(m));
+        p.push(s.wrapping_mul(m).wrapping_sub(1));
+        p.push(s.wrapping_mul(m).wrapping_add(1));
+        p.push(*s);
+        p.push(s - 1);
+    }
+    for _ in 0..10 {
+        p.push(r.bits(64));
+    }
+    // same bit in table 0, different elsewhere
+    if let Some(s0) = sizes.first() {
+        let base = r.bits(40);
+        for j in 0..4 {
+            p.push(base + j * s0);
+        }
+    }
+    p
+}
+
+fn a_hash(r: &mut Rng, p: &[u64]) -> u64 {
+    if r.chance(7, 10) {
+        *r.pick(p)
+    } else {
+        r.bits(64)
+    }
+}
+
+fn a_kmer(r: &mut Rng, kmin: u64) -> String {
+    let k = match r.below(5) {
+        0 => 32,
+        1 => r.range(kmin, 4),
+        2 => 31,
+        _ => r.range(kmin, 32),
+    };
+    let style = r.below(6);
+    (0..k)
+        .map(|i| match style {
+            0 => 'A',
+            1 => 'T',
+            2 => ['A', 'T'][(i % 2) as usize],
+            3 => 'G',
+            _ => *r.pick(&['A', 'C', 'G', 'T']),
+        })
+        .collect()
+}
+
+fn revcomp(s: &str) -> String {
+    s.chars()
+        .rev()
+        .map(|c| match c {
+            'A' => 'T',
+            'T' => 'A',
+            'C' => 'G',
+            _ => 'C',
+        })
+        .collect()
+}
+
+fn hash_list(r: &mut Rng, p: &[u64]) -> String {
+    let n = r.range(0, 12);
+    show_nats((0..n).map(|_| a_hash(r, p)))
+}
+
+fn history(o: &mut Out, r: &mut Rng, sizes: &[u64], nops: u64, mixed: bool) {
+    let p = pool(r, sizes);
+    let mut kmers: Vec<String> = vec![];
+    for _ in 0..nops {
+        let i = r.below(3);
+        match r.below(20) {
+            0..=6 => o.op(&format!("count {} {}", i, a_hash(r, &p))),
+            7..=10 => o.op(&format!("get {} {}", i, a_hash(r, &p))),
+            11..=12 => {
+                let km = if !kmers.is_empty() && r.chance(1, 3) {
+                    let k = r.pick(&kmers).clone();
+                    if r.chance(1, 2) {
+                        revcomp(&k)
+                    } else {
+                        k
+                    }
+                } else {
+                    a_kmer(r, 2)
+                };
+                kmers.push(km.clone());
+                o.op(&format!("kmer {} {}", i, km));
+            }
+            13 => {
+                let km = if !kmers.is_empty() && r.chance(2, 3) {
+                    let k = r.pick(&kmers).clone();
+                    if r.chance(1, 2) {
+                        revcomp(&k)
+                    } else {
+                        k
+                    }
+                } else {
+                    a_kmer(r, 2)
+                };
+                o.op(&format!("getk {} {}", i, km));
+            }
+            14..=15 => {
+                let j = if mixed { r.below(3) } else { (i + 1 + r.below(2)) % 3 };
+                o.op(&format!("upd {} {}", i, j));
+            }
+            16 => o.op(&format!("{} {} {}", if r.chance(1, 2) { "updmh" } else { "updbt" }, i, hash_list(r, &p))),
+            17 => o.op(&format!("matches {} {}", i, hash_list(r, &p))),
+            18 => o.op(&format!("sim {} {}", i, r.below(3))),
+            _ => o.op(&format!("cont {} {}", i, r.below(3))),
+        }
+    }
+    // every inserted hash is still present at the end: ask again for the whole pool
+    for h in p.iter().take(12) {
+        o.op(&format!("get {} {}", r.below(3), h));
+    }
+}
+
+fn gen(a: &Args) {
+    let mut r = Rng::new(a.seed);
+    let mut o = Out::new();
+    let thorough = a.tier == "thorough";
+    let ncases = if thorough { 12000 } else { 700 };
+    for c in 0..ncases {
+        let k = r.range(1, 32);
+        match c % 10 {
+            0..=6 => {
+                let sizes = sizes_vec(&mut r);
+                o.case(&format!("new {} {}", k, show_nats(sizes.iter().copied())));
+                let nops = if sizes.len() > 40 { r.range(10, 40) } else { r.range(20, 120) };
+                history(&mut o, &mut r, &sizes, nops, false);
+            }
+            7 | 8 => {
+                let ts = if r.chance(1, 4) { r.range(1, 12) } else { r.range(1, 400) };
+                let nt = r.range(0, 8);
+                o.case(&format!("wt {} {} {}", ts, nt, k));
+                let sizes = Nodegraph::with_tables(ts as usize, nt as usize, k as usize).tablesizes();
+                let nops = r.range(20, 100);
+                history(&mut o, &mut r, &sizes, nops, false);
+            }
+            _ => {
+                let sa = sizes_vec(&mut r);
+                let mut sb = sa.clone();
+                match r.below(3) {
+                    0 => {
+                        sb.pop();
+                    }
+                    1 => sb.push(pick_size(&mut r)),
+                    _ => {
+                        let i = r.below(sb.len() as u64) as usize;
+                        sb[i] = pick_size(&mut r);
+                    }
+                }
+                o.case(&format!("mixed {} {} {}", k, show_nats(sa.iter().copied()), show_nats(sb.iter().copied())));
+                let nops = r.range(10, 50);
+                history(&mut o, &mut r, &sa, nops, true);
+            }
+        }
+    }
+}
+
+fn counters(ng: &Nodegraph) -> String {
+    let occ = unsafe { nodegraph_noccupied(ng as *const Nodegraph as *const SourmashNodegraph) };
+    assert_eq!(occ, ng.noccupied());
+    format!("occ={} uniq={}", occ, ng.unique_kmers())
+}
+
+fn mh_of(hs: &[u64]) -> KmerMinHash {
+    let mut mh = KmerMinHash::new(1, 21, HashFunctions::Murmur64Dna, 42, false, 0);
+    for h in hs {
+        mh.add_hash(*h);
+    }
+    mh
+}
+
+fn f64s(x: f64) -> String {
+    if x.is_nan() {
+        "nan".into()
+    } else {
+        x.to_bits().to_string()
+    }
+}
+
+struct St {
+    g: Vec<Nodegraph>,
+    nops: u64,
+}
+
+fn step(st: &mut St, ws: &[&str]) -> String {
+    if ws[0] == "case" {
+        st.nops = 0;
+        return match ws[2] {
+            "new" => {
+                let sizes: Vec<usize> = parse_nats(ws[4]).into_iter().map(|x| x as usize).collect();
+                let g = Nodegraph::new(&sizes, ws[3].parse().unwrap());
+                st.g = vec![g.clone(), g.clone(), g.clone()];
+                show_nats(g.tablesizes())
+            }
+            "wt" => {
+                let g = Nodegraph::with_tables(ws[3].parse().unwrap(), ws[4].parse().unwrap(), ws[5].parse().unwrap());
+                st.g = vec![g.clone(), g.clone(), g.clone()];
+                show_nats(g.tablesizes())
+            }
+            "mixed" => {
+                let sa: Vec<usize> = parse_nats(ws[4]).into_iter().map(|x| x as usize).collect();
+                let sb: Vec<usize> = parse_nats(ws[5]).into_iter().map(|x| x as usize).collect();
+                let k = ws[3].parse().unwrap();
+                st.g = vec![Nodegraph::new(&sa, k), Nodegraph::new(&sa, k), Nodegraph::new(&sb, k)];
+                "ok".into()
+            }
+            _ => "ok".into(),
+        };
+    }
+    st.nops += 1;
+    let via_ffi = st.nops % 3 == 0;
+    let i: usize = ws[1].parse().unwrap();
     match ws[0] {
-        "case" => "ok".into(),
+        "count" => {
+            let h: u64 = ws[2].parse().unwrap();
+            let g = &mut st.g[i];
+            let r = if via_ffi {
+                unsafe { nodegraph_count(g as *mut Nodegraph as *mut SourmashNodegraph, h) }
+            } else {
+                g.count(h)
+            };
+            format!("{} {}", r as u8, counters(g))
+        }
+        "kmer" => {
+            let c = CString::new(ws[2]).unwrap();
+            let g = &mut st.g[i];
+            let r = unsafe { nodegraph_count_kmer(g as *mut Nodegraph as *mut SourmashNodegraph, c.as_ptr()) };
+            format!("{} {}", r as u8, counters(g))
+        }
+        "get" => {
+            let h: u64 = ws[2].parse().unwrap();
+            let g = &st.g[i];
+            if via_ffi {
+                unsafe { nodegraph_get(g as *const Nodegraph as *const SourmashNodegraph, h) }.to_string()
+            } else {
+                g.get(h).to_string()
+            }
+        }
+        "getk" => {
+            let c = CString::new(ws[2]).unwrap();
+            let g = &st.g[i];
+            unsafe { nodegraph_get_kmer(g as *const Nodegraph as *const SourmashNodegraph, c.as_ptr()) }.to_string()
+        }
+        "upd" => {
+            let j: usize = ws[2].parse().unwrap();
+            let src = st.g[j].clone();
+            let g = &mut st.g[i];
+            if via_ffi {
+                unsafe {
+                    nodegraph_update(
+                        g as *mut Nodegraph as *mut SourmashNodegraph,
+                        &src as *const Nodegraph as *const SourmashNodegraph,
+                    )
+                }
+            } else {
+                src.update(g).unwrap();
+            }
+            format!("ok {}", counters(g))
+        }
+        "updmh" => {
+            let mh = mh_of(&parse_nats(ws[2]));
+            let g = &mut st.g[i];
+            if via_ffi {
+                unsafe {
+                    nodegraph_update_mh(
+                        g as *mut Nodegraph as *mut SourmashNodegraph,
+                        &mh as *const KmerMinHash as *const SourmashKmerMinHash,
+                    )
+                }
+            } else {
+                mh.update(g).unwrap();
+            }
+            format!("ok {}", counters(g))
+        }
+        "updbt" => {
+            let mut mh = KmerMinHashBTree::new(1, 21, HashFunctions::Murmur64Dna, 42, false, 0);
+            for h in parse_nats(ws[2]) {
+                mh.add_hash(h);
+            }
+            let g = &mut st.g[i];
+            mh.update(g).unwrap();
+            format!("ok {}", counters(g))
+        }
+        "matches" => {
+            let mh = mh_of(&parse_nats(ws[2]));
+            let g = &st.g[i];
+            if via_ffi {
+                unsafe {
+                    nodegraph_matches(
+                        g as *const Nodegraph as *const SourmashNodegraph,
+                        &mh as *const KmerMinHash as *const SourmashKmerMinHash,
+                    )
+                }
+                .to_string()
+            } else {
+                g.matches(&mh).to_string()
+            }
+        }
+        "sim" => {
+            let j: usize = ws[2].parse().unwrap();
+            f64s(st.g[i].similarity(&st.g[j]))
+        }
+        "cont" => {
+            let j: usize = ws[2].parse().unwrap();
+            f64s(st.g[i].containment(&st.g[j]))
+        }
         _ => "bad-op".into(),
     }
 }
@@ -17,7 +364,7 @@ fn main() {
     let a = args();
     match a.mode.as_str() {
         "gen" => gen(&a),
-        "exec" => exec_loop(|| (), step),
+        "exec" => exec_loop(|| St { g: vec![], nops: 0 }, step),
         _ => panic!("mode"),
     }
 }
